@@ -335,10 +335,6 @@ def stream(rng, quick):
     items = list(all_programs())
     if not quick:
         return items
-    # the cyclic-inheritance inputs hang for the whole time limit (known finding cyclic-extends-overflow): its witness is
-    # replayed on every run; the variants stay in the thorough tier only
-    items = [x for x in items if not (x[0] == "sem-audit" and x[1].startswith("R5-extends|") and "extends" in x[2].split("class A1", 1)[1].split(":")[0]
-                                      and any(c in x[2] for c in ("extends A1", "extends B1", "extends C1")))]
     big = [x for x in items if x[0] in ("sem-type-use", "sem-operators", "sem-unary")]
     small = [x for x in items if x[0] not in ("sem-type-use", "sem-operators", "sem-unary")]
     # Latin-square style cover of types x usages: usage j goes with types (j*k + i) for a few i
